@@ -2,7 +2,8 @@
 # Run once after a fresh restore (offline): builds the instrumenter and the worker binaries for the
 # current /repo tree, which also warms the Go build cache.
 set -eu
-cd /verif
+cd "$(dirname "$(readlink -f "$0")")"
+VERIF_DIR=$(pwd); export VERIF_DIR
 ./build.sh >/dev/null
 ./build.sh race >/dev/null || true
 echo "setup ok"
